@@ -1,2 +1,178 @@
-(** C05 — placeholder until the proofs land. *)
-From Snel Require Import Model.Shard Model.Compaction.
+(** C05 — compaction changes layout, never content.
+    This file contains only the property theorems, each closed by [exact],
+    with [Print Assumptions] beneath.  Models: Model/Shard.v + Model/Compaction.v
+    (validated against the engine by trace validation); proofs:
+    Proofs/CompactionProofs.v (re-using the C03 invariant of Proofs/ShardC03Proofs.v).
+
+    One batch of the k-way policy is the label sequence
+    [batch_labels s b = [CWrite b; CIndex b; CLive b dr; CReclaim dr]] with
+    [dr = drained (index s) b]; [run_batch s b = crun s (batch_labels s b)].
+
+    [WF s] (well-formed state): live ids have directories; index labels are
+    unique; a type listed for a segment has rows in its directory; every row of
+    a live directory is listed for that segment or — its type having been retired
+    from that entry — a live segment listing the type holds the same row
+    ([Auth]); event keys are unique among the scanned rows up to identical copies.
+    [BatchPre k s b]: [batch_ok (index s) k b = true], the inputs are live, no
+    directory has the output id.
+    [Exact s]: every row of a live directory is listed in the entry of its own
+    segment (no retired leftovers). *)
+From Coq Require Import NArith List Bool Permutation.
+From Snel Require Import Model.Shard Proofs.ShardC03Proofs Model.Compaction Proofs.CompactionProofs.
+Import ListNotations.
+Open Scope N_scope.
+
+(** The merge neither drops nor invents rows: for every directory list, batch and
+    type of the batch, the rows written for that type are a permutation of its
+    rows in the inputs (any k, any level, any number of inputs). *)
+Theorem C05_rows_multiset : forall ds b u,
+  NoDup (b_uids b) -> In u (b_uids b) ->
+  Permutation (of_uid u (batch_rows ds b)) (of_uid u (concat (map (rows_of ds) (b_inputs b)))).
+Proof. exact rows_multiset. Qed.
+Print Assumptions C05_rows_multiset.
+
+(** ... and no row of any other type is written. *)
+Theorem C05_rows_multiset_other : forall ds b u,
+  ~ In u (b_uids b) -> of_uid u (batch_rows ds b) = [].
+Proof. exact rows_multiset_other. Qed.
+Print Assumptions C05_rows_multiset_other.
+
+(** One whole batch from a well-formed state leaves EVERY selection unchanged (up
+    to order), also for types outside the batch and also when an input is drained
+    only partially, and re-establishes the invariant. *)
+Theorem C05_select_preserved : forall k s b,
+  WF s -> BatchPre k s b ->
+  WF (run_batch s b) /\ forall u, Permutation (select s u) (select (run_batch s b) u).
+Proof. exact select_preserved. Qed.
+Print Assumptions C05_select_preserved.
+
+(** Any number of batches / rounds. *)
+Theorem C05_select_preserved_rounds : forall k bs s,
+  WF s -> batches_pre k s bs ->
+  WF (run_batches s bs) /\ forall u, Permutation (select s u) (select (run_batches s bs) u).
+Proof. exact select_preserved_rounds. Qed.
+Print Assumptions C05_select_preserved_rounds.
+
+(** The invariant is not vacuous: every state reached from [init] by a crash-free
+    flush history (any interleaving of STORE, FLUSH, WAL and flush-worker labels)
+    with unique event ids is well-formed and exact. *)
+Theorem C05_wf_reachable : forall c ls,
+  no_crash ls -> NoDup (map ek (applied ls)) ->
+  WF (run (init c) ls) /\ Exact (run (init c) ls).
+Proof. exact wf_reachable. Qed.
+Print Assumptions C05_wf_reachable.
+
+(** Known finding CountAfterPartialDrainOrInMemory: segment 0 holds types {0,1},
+    segment 1 type 0, k = 2; the batch for type 0 drains segment 1 only; segment 0
+    stays live with the files of type 0: COUNT goes from 3 to 4 while the selection
+    is unchanged. *)
+Theorem C05_count_partial_drain_refuted :
+  exists c ls k b u,
+    let s := run (init c) ls in
+    no_crash ls /\ NoDup (map ek (applied ls)) /\ BatchPre k s b /\ NoDup (b_uids b) /\ In u (b_uids b) /\
+    index s = [(0, [0; 1]); (1, [0])] /\
+    drained (index s) b = [1] /\ undrained s b = [0] /\
+    live (run_batch s b) = [0; 10000] /\ index (run_batch s b) = [(0, [1]); (10000, [0])] /\
+    count s u = 3 /\ count (run_batch s b) u = 4 /\
+    select (run_batch s b) u = select s u /\ len (select s u) = 3.
+Proof. exact count_partial_drain_refuted. Qed.
+Print Assumptions C05_count_partial_drain_refuted.
+
+(** What a batch does to COUNT, exactly: for a type of the batch it grows by the
+    number of rows of that type in the inputs that stay live ([undrained]); for
+    another type it is unchanged when the state has no retired leftovers. *)
+Theorem C05_count_after_batch : forall k s b u,
+  WF s -> BatchPre k s b -> NoDup (b_uids b) ->
+  (In u (b_uids b) ->
+     count (run_batch s b) u
+     = count s u + len (of_uid u (concat (map (rows_of (dirs s)) (undrained s b))))) /\
+  (~ In u (b_uids b) -> Exact s -> count (run_batch s b) u = count s u).
+Proof. exact count_after_batch. Qed.
+Print Assumptions C05_count_after_batch.
+
+(** If the batch drains every one of its inputs (e.g. a single event type), COUNT
+    is unchanged for every type, and exactness is preserved (so this holds for any
+    number of such batches).  [Exact s] cannot be dropped: in
+    [C05_select_preserved_example] the second batch drains both of its inputs and
+    COUNT for type 0 goes from 5 back to 4, because segment 0 still held the rows
+    of type 0 retired by the first batch. *)
+Theorem C05_count_preserved_full_drain : forall k s b,
+  WF s -> Exact s -> BatchPre k s b -> NoDup (b_uids b) ->
+  (forall i, In i (b_inputs b) -> In i (drained (index s) b)) ->
+  Exact (run_batch s b) /\ forall u, count (run_batch s b) u = count s u.
+Proof. exact count_preserved_full_drain. Qed.
+Print Assumptions C05_count_preserved_full_drain.
+
+(** A run that stops after the output directory was written (before the index is
+    saved), then crash and restart: the index is as without the run and every
+    selection is the same as without the run (the response writer drops the copies
+    in the leftover directory, which restart reads as live); COUNT additionally
+    counts every row of the leftover directory. *)
+Theorem C05_failed_run_harmless : forall s b,
+  (forall d, In d (dirs s) -> sid d <> b_out b) -> KeysOkDisk s ->
+  let s1 := crun s [CWrite b; CBase LCrash; CBase LRestart] in
+  let s0 := crun s [CBase LCrash; CBase LRestart] in
+  index s1 = index s0 /\
+  (forall u, Permutation (select s1 u) (select s0 u)) /\
+  (forall u, count s1 u = count s0 u + len (of_uid u (batch_rows (dirs s) b))).
+Proof. exact failed_run_harmless. Qed.
+Print Assumptions C05_failed_run_harmless.
+
+(** Without the restart the leftover directory is not read at all. *)
+Theorem C05_failed_run_unread : forall s b,
+  (forall d, In d (dirs s) -> sid d <> b_out b) ->
+  ~ In (b_out b) (live s) -> ~ In (b_out b) (inflight s) ->
+  let s1 := cstep s (CWrite b) in
+  index s1 = index s /\ live s1 = live s /\
+  forall u, select s1 u = select s u /\ count s1 u = count s u.
+Proof. exact failed_run_unread. Qed.
+Print Assumptions C05_failed_run_unread.
+
+(** [KeysOkDisk] holds at every state of a crash-free flush history with unique ids. *)
+Theorem C05_keys_ok_disk_reachable : forall c ls,
+  no_crash ls -> NoDup (map ek (applied ls)) -> KeysOkDisk (run (init c) ls).
+Proof. exact keys_ok_disk_reachable. Qed.
+Print Assumptions C05_keys_ok_disk_reachable.
+
+(** COUNT after the failed run + restart (part of CountAfterPartialDrainOrInMemory). *)
+Theorem C05_failed_run_count_refuted :
+  exists c ls b u,
+    let s := run (init c) ls in
+    let s1 := crun s [CWrite b; CBase LCrash; CBase LRestart] in
+    let s0 := crun s [CBase LCrash; CBase LRestart] in
+    no_crash ls /\ NoDup (map ek (applied ls)) /\ (forall d, In d (dirs s) -> sid d <> b_out b) /\
+    live s1 = [0; 1; 10000] /\ index s1 = index s /\
+    select s1 u = select s0 u /\ count s0 u = 3 /\ count s1 u = 6.
+Proof. exact failed_run_count_refuted. Qed.
+Print Assumptions C05_failed_run_count_refuted.
+
+(** Non-vacuity: two event types in different subsets of three segments, two
+    batches of the k = 2 policy (the first drains segment 0 partially). *)
+Theorem C05_select_preserved_example :
+  let s := run (init 2) ls_3 in
+  let t := run_batches s [b_31; b_32] in
+  no_crash ls_3 /\ NoDup (map ek (applied ls_3)) /\ batches_pre 2 s [b_31; b_32] /\
+  index s = [(0, [0; 1]); (1, [0]); (2, [1])] /\ live s = [0; 1; 2] /\
+  index t = [(10000, [0]); (10001, [1])] /\ live t = [10000; 10001] /\ map sid (dirs t) = [10000; 10001] /\
+  select s 0 = [mkEv 6 2 0; mkEv 0 0 0; mkEv 2 0 0; mkEv 3 1 0] /\ select t 0 = select s 0 /\
+  select s 1 = [mkEv 1 0 1; mkEv 5 0 1; mkEv 4 1 1] /\ select t 1 = select s 1 /\
+  count s 0 = 4 /\ count (run_batch s b_31) 0 = 5 /\ count t 0 = 4.
+Proof. exact select_preserved_example. Qed.
+Print Assumptions C05_select_preserved_example.
+
+Theorem C05_count_preserved_full_drain_example :
+  let s := run (init 2) ls_fd in
+  let b := mkBatch 10000 [0; 1] [0] in
+  no_crash ls_fd /\ NoDup (map ek (applied ls_fd)) /\ BatchPre 2 s b /\ NoDup (b_uids b) /\
+  (forall i, In i (b_inputs b) -> In i (drained (index s) b)) /\
+  live (run_batch s b) = [10000] /\ count s 0 = 5 /\ count (run_batch s b) 0 = 5.
+Proof. exact count_preserved_full_drain_example. Qed.
+Print Assumptions C05_count_preserved_full_drain_example.
+
+Theorem C05_failed_run_example :
+  let s := run (init 2) ls_3 in
+  no_crash ls_3 /\ NoDup (map ek (applied ls_3)) /\
+  (forall d, In d (dirs s) -> sid d <> b_out b_31) /\
+  live (crun s [CWrite b_31; CBase LCrash; CBase LRestart]) = [0; 1; 2; 10000].
+Proof. exact failed_run_example. Qed.
+Print Assumptions C05_failed_run_example.
